@@ -220,7 +220,17 @@ def cluster_part(ctx, v, out):
 
     def one(arg):
         i, chunk = arg
-        return common._run_once(ctx["binary"], chunk, "%s-c%d" % (scratch, i), 600)
+        out = None
+        for attempt in range(3):
+            out = common._run_once(ctx["binary"], chunk, "%s-c%d" % (scratch, i), 600)
+            # the harness picks free ports for the nodes' listeners by asking the kernel, closing, and letting lmd listen again:
+            # another process can take the port in between, lmd then ends with a listen error - an artefact, the history is run again
+            if out[0] != 0 and ("address already in use" in out[2] or "listen error" in out[2]):
+                retried.append(i)
+                continue
+            break
+        return out
+    retried = []
     with concurrent.futures.ThreadPoolExecutor(4) as ex:
         outs = list(ex.map(one, enumerate(chunks)))
     model = common.run_model(ctx["schema_path"], model_lines)
@@ -350,6 +360,7 @@ def cluster_part(ctx, v, out):
                     # listed finding: the rows are the right ones, their order differs where a list typed sort column has no value
                     del v.violations[before:]
                     v.known_hits["cluster-sort-missing-list-value"] = v.known_hits.get("cluster-sort-missing-list-value", 0) + 1
+    totals["histories_run_again_for_a_taken_port"] = len(retried)
     out.extra_cov["cluster"] = totals
 
 
